@@ -80,6 +80,15 @@ def monSwapBank (offer ret pf bf : Nat) (senderPaid recvGot recvOffer fcGot pmOf
              (fcGot == pf, "C04-bank"), (pmOffer == offer, "C04-bank"), (pmAskOut == ret + pf + bf, "C04-bank"),
              (others == 0, "C04-bank")]
 
+/-- C13 (constant product): an executed swap's price impact plus fees, measured against the
+    pre-trade pool price, is within min(tolerance or 1 %, 50 %).  `net` is the amount delivered (for a
+    route hop: an upper bound of it, which only makes the check weaker). -/
+def monCpSlippage (tol : Option Nat) (x y offer net : Nat) : Verdict :=
+  if x = 0 then none else
+  let ideal := offer * (y * ONE18 / x) / ONE18
+  let eff := min (tol.getD C.DEFAULT_SLIPPAGE) C.MAX_ALLOWED_SLIPPAGE
+  firstFail [(ideal ≤ net || ideal = 0 || (ideal - net) * ONE18 / ideal ≤ eff, "C13-slippage-exceeded")]
+
 /-- C08: a withdrawal is accepted only from the owner, and without the emergency flag only for a
     closed position whose unlock instant has been reached -/
 def monWithdrawPosAccept (ok isOwner emergency : Bool) (expiring : Option Nat) (now : Nat) : Verdict :=
